@@ -167,6 +167,9 @@ def run_matrix(sel):
             pid = key.split('/')[0]
             res = m.get('results', {})
             own = res.get(pid, {}).get('verdict', m.get('status', '-'))
+            if m.get('status') == 'not-applicable':
+                own = 'not applicable (' + m.get('status_reason', 'the code it changed is gone')[:90] + ')'
+                res = {}
             others = ', '.join('%s:%s' % (k, v['verdict']) for k, v in sorted(res.items()) if k != pid)
             conf = m.get('confirmation', {})
             cs = '%s / %s, %s' % (conf.get('demo_with_change', '?'), conf.get('demo_without_change', '?'), conf.get('suite_with_change', '?'))
